@@ -46,6 +46,7 @@ var opFields = map[string][]string{
 	"validate": {},
 	"jsonrt":   {},
 	"reimport": {},
+	"restart":  {},
 }
 
 // queryFields is the grammar of SPEC.md §4.1: for every query kind the keys
